@@ -385,7 +385,7 @@ impl World {
     /// the projection compared with the specification's `disk`
     fn observe(&self) -> Value {
         let entry = |p: &Path, gz: bool| -> Value {
-            if fs::symlink_metadata(p).map(|m| m.file_type().is_symlink()).unwrap_or(false) {
+            if fs::read_link(p).map(|t| t == Path::new("/dev/full")).unwrap_or(false) {
                 return json!({"k": "full", "d": []}); // the obstacle that cannot be written (never read through it)
             }
             if p.is_dir() {
@@ -548,7 +548,15 @@ pub fn replay_case(case: &Value, mat: Mat) -> Option<Value> {
                     }
                 }
                 let sz = op["sz"].as_i64().unwrap();
-                if sz == 0 {
+                if sz >= 0 && mat.dir_pattern {
+                    // in this materialisation the configured path is a symbolic link to the file found at start-up
+                    // (its size is the file's, not the link's)
+                    let real = scratch.path().join("real");
+                    fs::create_dir_all(&real).unwrap();
+                    let target = real.join("the-log-file-that-the-configured-path-points-to.log");
+                    fs::write(&target, if sz == 0 { String::new() } else { payload(0, sz, mat.unit) }).unwrap();
+                    std::os::unix::fs::symlink(&target, world.act()).unwrap();
+                } else if sz == 0 {
                     fs::write(world.act(), b"").unwrap();
                 } else if sz > 0 {
                     fs::write(world.act(), payload(0, sz, mat.unit)).unwrap();
